@@ -27,11 +27,13 @@ AT = re.compile(r'^"AT\|(\d+)\|(\d+)\|([^|"]*)\|([^|"]*)"$')
 
 # (op regex, clause regex) -> properties
 GRAPH_ATTR = [
-    (r".*", r"^(check-cycles|check-cycles-raises|topological-order|topological-order-no-raise|len)$", ["C15"]),
+    (r".*", r"^(check-cycles|check-cycles-raises|topological-order|topological-order-no-raise|topological-order-interleaved|len)$", ["C15"]),
     (r".*", r"^(entry-jobs|exit-jobs|exit-jobs-forever|predecessors|successors|upstream|downstream|iterate-jobs|iterate-jobs-schedulers|iterate-jobs-interleaved)$", ["C17"]),
     (r"^sanitize$", r".*", ["C16"]),
     (r"^(bypass|keep_only|keep_between)$", r".*", ["C18"]),
-    (r"^(requires|add|update|remove)$", r".*", ["C19"]),
+    # what the queries are specified against is what the user declared: an edit call that
+    # records something else breaks them too
+    (r"^(requires|add|update|remove)$", r".*", ["C19", "C17"]),
     (r"^display$", r".*", ["C15", "C17", "C20"]),
     (r"^list$", r"^list-", ["C15", "C20"]),
 ]
